@@ -36,12 +36,30 @@ CHECKS = {
   design_ref="DESIGN.md §3 C05",
   note="Trusted: the re-implemented matcher of test/model.conf; operation class per method pinned to accounts.MethodMap (documentation names none).",
   technique="property-based testing: exhaustive method matrix + rapid policies vs. re-implemented access matcher"),
+ "C07": dict(
+  category="exploration",
+  text="Traversal shapes x graph families (star, bipartite fan, chain) x sizes drawn around every internal channel capacity (100/1000/5000 and their sums) on kvgraph/Badger and the hint-honouring in-memory backend; uncancelled runs must close with the closed-form row count, cancelled runs (context cancelled after j rows while the consumer keeps draining, as server.Traversal does) must close; afterwards no bmeg/grip goroutine and no temporary store may remain. Non-closure is a violation only when two goroutine dumps show every grip goroutine blocked without progress.",
+  design_ref="DESIGN.md §3 C07",
+  note="Liveness is sampled and judged by quiescence; a livelock with a runnable goroutine is reported inconclusive. Counts come from an O(E) path-count recurrence over the generated family.",
+  technique="property-based testing over size boundaries with a closed-form count oracle and quiescence-based hang/leak detection"),
  "C08": dict(
   category="exploration",
   text="Exhaustive operator x key-form x value x argument grid (≈34k cells) plus random Boolean trees, each judged against a reference evaluator written from the documentation and against algebraic laws, directly on logic.MatchesHasExpression and end-to-end through V().has() on a stored Badger graph. The grid is finite and fully enumerated; trees are sampled.",
   design_ref="DESIGN.md §3 C08",
   note="Trusted: the reference evaluator (internal/model/expr.go) and the list of cells it declares undocumented (not judged). Values limited to what structpb carries.",
   technique="property-based testing: exhaustive small-scope grid + rapid random trees vs. reference evaluator and metamorphic Boolean laws"),
+ "C09": dict(
+  category="exploration",
+  text="State machine over kvindex.KVIndex on Badger (thorough: also memkv, LevelDB, Bolt, Pebble): AddField/RemoveField/AddDoc (new and replacing)/AddDocTx in BulkWrite and Update/RemoveDoc over 3 fields, 5 documents, string terms and numeric terms at sign/magnitude boundaries incl. -0.0; every sequence to depth 3 over a 13-op alphabet plus random histories; after every step every index query is compared with a brute-force scan of the model's live documents.",
+  design_ref="DESIGN.md §3 C09",
+  note="Documents added before a field was registered are not expected to be indexed (documented TODO). Non-string/non-number values are outside the property. Stores live on tmpfs (/dev/shm) for speed.",
+  technique="model-based (stateful) property testing: exhaustive + rapid operation sequences vs. brute-force scan model"),
+ "C12": dict(
+  category="exploration",
+  text="Loop programs from templates grounded in the iteration documentation and upstream repeat tests (counter-bounded cycles, filter-before-body, forward jumps, two jumps to one mark, emit on/off, bodies incl. both/outE.out) on chains, DAGs, cycles and fan-outs with >50 and >1000 travelers in flight; every case runs repeatedly under GOMAXPROCS in {1,2,4,16} with generated consumer pauses; the row multiset must equal an iterative worklist reference every time and the stream must close (quiescence with the protocol's polling loops named as pollers).",
+  design_ref="DESIGN.md §3 C12",
+  note="Interleavings are sampled, not enumerated. Unconditional cycles are not generated. The optional verif event tap was not built; the result-multiset oracle does not need it.",
+  technique="property-based testing with schedule perturbation: reference iterative semantics + quiescence-based termination oracle"),
  "C13": dict(
   category="exploration",
   text="Each internal combinator (job serializer/deserializer pools, gripper ChannelMux alone and as deployed in TabularGraph.GetVertexChannel, LookupBatcher, DualProcessor, jump queue) is fed sequence-numbered items with lengths around every buffer/batch/worker size, generated producer/stage/consumer latency vectors and GOMAXPROCS in {1,2,16}; output sequence, round-trip equality, closure-after-input and goroutine release are checked; hangs are confirmed by a goroutine-dump quiescence detector, never by a bare timeout.",
